@@ -36,7 +36,7 @@ META = {
     "note": "Trusted: the cooperative scheduler (one thread runs between park points: pool-lock acquires, the transport "
             "constructor, the borrower's body, Event.wait, Thread.join), so races on data touched outside those "
             "points within one step are out of reach; fake worker processes in level 1 (process death = a flag read by "
-            "poll(); a worker whose serve loop gave up keeps poll() None); one command key; shm_size unset; level 2 "
+            "poll(); a worker whose serve loop gave up keeps poll() None); at most two command keys; shm_size unset; level 2 "
             "timing (whether a worker that choked on garbage has exited by the next borrow) is whatever the OS does.",
     "technique": "TLC exhaustive interleaving exploration of a lock-granular TLA+ model; TLC-generated schedules replayed "
                  "on real threads by a deterministic scheduler; TLC trace validation + property monitor; TLC-enumerated "
@@ -80,9 +80,40 @@ def _sig(clause: str, mi: int, why: str, level: str) -> dict:
     return sig
 
 
+def _replay(ctx: Ctx, wd, rec: dict) -> None:
+    """./check C32 --replay F: re-execute the recorded execution on the real pool and let TLC judge it again."""
+    d, sig = rec["detail"], rec["sig"]
+    if sig["level"] == "schedule":
+        h = d["config"]
+        with PW.PoolWorld(d["nb"], h["rounds"], h["mi"], reaper=h["rpc0"] != "off", closer=h["cpc0"] != "off",
+                          nkeys=h.get("nkeys", 1)) as w:
+            for a, k, kind, script, pos in d["ops"]:
+                if a == "B":
+                    w.step_b(k, kind or None, script or None, pos)
+                else:
+                    {"R": w.step_r, "C": w.step_c, "Tick": w.tick}[a]() if a != "Die" else w.die(k)
+            mon = list(w.mon)
+        v = tracecheck.validate(ctx, wd, "PoolMonitor", [{"ev": mon}], spec="MSpec")[0]
+        ctx.case(["replay", d["ops"]], sample={"replayed": d["schedule"], "clauses_now": v["bad"]})
+        why = next((e["why"] for e in mon if e["e"] == "Probe" and not e["ok"]), "")
+        for clause in v["bad"]:
+            ctx.violation(clause, _sig(clause, h["mi"], why, "schedule"), {**d, "observable_history": [e for e in mon if e["e"] != "Idle"]})
+    else:
+        c = d["row"]
+        o = (PW.run_table_inproc if sig["level"] == "table-inproc" else PW.run_table_subprocess)([c])[0]
+        ctx.case(["replay", c], sample={"row": c, "observed": o})
+        for _i, clauses in table.judge(ctx, "conc", "PoolUse", [{"case": c, "obs": {k: v for k, v in o.items() if k != "err"}}]):
+            for cl in clauses:
+                if not cl.startswith("drift:"):
+                    ctx.violation(cl, _sig(cl, c["mi"], f"{c['kind']}:{c['script']}", sig["level"]), {"row": c, "observed": o})
+
+
 def run(ctx: Ctx) -> None:
     quick = ctx.quick
     wd = ctx.wd.stage("conc")
+    if getattr(ctx, "replay_record", None):
+        _replay(ctx, wd, ctx.replay_record)
+        return
     if not quick:
         for m in ("PoolTrace", "PoolMonitor", "PoolUse"):
             sany(wd, m)
@@ -118,6 +149,9 @@ def run(ctx: Ctx) -> None:
             _c(2, 1, "{0,1}", 2, 0, ALLK, True, False, dev), 2)
 
     with ThreadPoolExecutor(max_workers=4 if quick else 6) as pool:
+        # (state graphs first: the replays wait for them; the exhaustive runs are collected at the end)
+        g_jobs = {k: pool.submit(dump_graph, wd, "Pool", render_cfg(constants=c), name=f"po{i}", workers=4)
+                  for i, (k, (c, _nb)) in enumerate(graphs.items())}
         # ---- (1) the design, exhaustively
         mc = {}
         if quick:
@@ -130,21 +164,19 @@ def run(ctx: Ctx) -> None:
             mc["intended 3 borrowers x 1 round, 2 command keys"] = _c(3, 1, "{0,1,2}", 1, 0, ALLK, True, True, (False, False), nkeys=2)
             mc["intended 2 borrowers x 2 rounds, clock 2"] = _c(2, 2, "{0,1,2}", 2, 1, ALLK, True, True, (False, False))
         mc_jobs = {k: pool.submit(run_tlc, wd, "Pool", render_cfg(constants=c, invariants=SANITY + CLAUSES),
-                                  coverage=(i == 0), cfg_name=f"PO_mc{i}.cfg", timeout=1500)
+                                  coverage=(i == 0), cfg_name=f"PO_mc{i}.cfg", timeout=1500, workers=4 if quick else 8)
                    for i, (k, c) in enumerate(mc.items())}
         doc_jobs = {}
         if not quick:
             doc_jobs["shipped"] = pool.submit(run_tlc, wd, "Pool", render_cfg(
-                constants=_c(2, 2, "{0,1,2}", 1, 1, ALLK, True, True, (True, True)), invariants=CLAUSES), cfg_name="PO_shipped.cfg")
+                constants=_c(2, 2, "{0,1,2}", 1, 1, ALLK, True, True, (True, True)), invariants=CLAUSES), cfg_name="PO_shipped.cfg", workers=2)
             doc_jobs["only_zero"] = pool.submit(run_tlc, wd, "Pool", render_cfg(
-                constants=_c(2, 2, "{0,1,2}", 1, 1, ALLK, True, True, (True, False)), invariants=CLAUSES), cfg_name="PO_dev1.cfg")
+                constants=_c(2, 2, "{0,1,2}", 1, 1, ALLK, True, True, (True, False)), invariants=CLAUSES), cfg_name="PO_dev1.cfg", workers=2)
             doc_jobs["only_last"] = pool.submit(run_tlc, wd, "Pool", render_cfg(
-                constants=_c(2, 2, "{0,1,2}", 1, 1, ALLK, True, True, (False, True)), invariants=CLAUSES), cfg_name="PO_dev2.cfg")
+                constants=_c(2, 2, "{0,1,2}", 1, 1, ALLK, True, True, (False, True)), invariants=CLAUSES), cfg_name="PO_dev2.cfg", workers=2)
             for v in ("NeverReuses", "NeverEvicts"):
                 doc_jobs[v] = pool.submit(run_tlc, wd, "Pool", render_cfg(
-                    constants=_c(2, 2, "{1}", 0, 0, ALLK, False, False, (False, False)), invariants=[v]), cfg_name=f"PO_{v}.cfg")
-        g_jobs = {k: pool.submit(dump_graph, wd, "Pool", render_cfg(constants=c), name=f"po{i}")
-                  for i, (k, (c, _nb)) in enumerate(graphs.items())}
+                    constants=_c(2, 2, "{1}", 0, 0, ALLK, False, False, (False, False)), invariants=[v]), cfg_name=f"PO_{v}.cfg", workers=2)
 
         # ---- (2) the script table: TLC enumerates the rows
         rows = table.enumerate_cases(ctx, "conc", "PoolUse", invariants=["KindsCovered", "ReuseOnlyWhenIdleAllowed"])
@@ -174,7 +206,7 @@ def run(ctx: Ctx) -> None:
             require_ok(gr, "Pool state graph")
             paths = g.edge_cover_paths(ctx.rng, key=_coarse if quick else _fine)
             if not quick:
-                paths += g.random_paths(ctx.rng, 250, 60)
+                paths = paths[:350] + g.random_paths(ctx.rng, 60, 60)
             for nodes, labs in paths:
                 beh = g.path_to_behaviour(nodes, labs)
                 res = PW.run_path(beh, g.state(nodes[0]), nb, ctx.rng)
@@ -187,7 +219,7 @@ def run(ctx: Ctx) -> None:
                     ctx.drift.append({"spec": "Pool", "graph": name, **res["drift"]})
                 if res["errors"]:
                     ctx.drift.append({"spec": "Pool", "thread_errors": res["errors"]})
-        for i in range(100 if quick else 2500):
+        for i in range(100 if quick else 1000):
             r = ctx.rng
             res = PW.run_random(r, r.choice([2, 2, 3]), r.choice([1, 2]), r.choice([0, 1, 2]), r.random() < 0.7,
                                 r.random() < 0.5, nkeys=r.choice([1, 1, 2]))
@@ -257,6 +289,8 @@ def run(ctx: Ctx) -> None:
                 why = next((e["why"] for e in r["mon"] if e["e"] == "Probe" and not e["ok"]), "")
                 ctx.violation(clause, _sig(clause, r["header"]["mi"], why, "schedule"),
                               {"config": r["header"], "schedule": m["schedule"], "source": m["source"],
+                               "nb": len(r["trace"][0]["held"]) if r["trace"] else 1,
+                               "ops": [[e["a"], e["k"], e["kind"], e["script"], e["pos"]] for e in r["trace"]],
                                "observable_history": [e for e in r["mon"] if e["e"] != "Idle"], "outcome": r["outcome"]})
         ctx.traces_validated += accepted
         ctx.extra["pool_runs"] = len(runs)
